@@ -1,5 +1,5 @@
 """C16 — generators and codecs accept exactly their documented domain."""
-from core import Case, psec
+from core import Case, call_impl, psec
 from props.cardutil import digits, rb
 
 OBLIGATIONS = ["Psec.Props.C16.encode_iso0_domain", "Psec.Props.C16.encode_iso2_domain", "Psec.Props.C16.encode_iso3_domain", "Psec.Props.C16.encode_pin_field_iso4_domain", "Psec.Props.C16.encode_pan_field_iso4_domain", "Psec.Props.C16.encipher_iso4_domain", "Psec.Props.C16.decoders_only_value_error", "Psec.Props.C16.decipher_iso4_only_value_error", "Psec.Props.C16.cvv_domain", "Psec.Props.C16.pvv_domain", "Psec.Props.C16.ibm_pin_domain", "Psec.Props.C16.ibm_offset_domain", "Psec.Props.C16.cbc_mac_des_domain", "Psec.Props.C16.cbc_mac_aes_domain", "Psec.Props.C16.retail_mac_domain", "Psec.Props.C16.tdes_wrappers_domain", "Psec.Props.C16.aes_wrappers_domain", "Psec.Props.C16.key_utils_domain"]
@@ -34,9 +34,8 @@ class T:  # text parameter: decimal digits, length in [lo, hi]
             if 0 <= n <= 64:
                 yield "".join(rng.choice(self.alphabet) for _ in range(n))
         # far outside: lengths at which a one-byte count, a two-byte count or a buffer would overflow
-        for n in (100, 208, 224, 240, 255, 256, 257, 300, 1000, 5000, 70000):
-            if not self.lo <= n <= self.hi:
-                yield "".join(rng.choice(self.alphabet) for _ in range(n))
+        for n in (100, 208, 224, 240, 255, 256, 257, 300, 1000, 4300, 4301, 5000, 70000):
+            yield "".join(rng.choice(self.alphabet) for _ in range(n))
         base = self.valid(rng)
         for h in HOSTILE:
             if h in self.alphabet:
@@ -171,6 +170,23 @@ def generate(rng, tier, seed):
                 c = Case(fn.split(".")[-1] + ":valid", {})
                 verdict_case(c, fn, params, [q.valid(rng) for q in params], entropy, decoder)
                 yield c
+    # rejection cases crossed with very large data: an invalid selector or key size must be refused whatever the size of the message
+    big = [1 << 20, (1 << 20) + 8, 3 << 19]
+    for n in big:
+        data = bytes(n)
+        for fn, args in (("mac.generate_cbc_mac", (rb(rng, 16), data, 4, None, A.DES)), ("mac.generate_cbc_mac", (rb(rng, 16), data, 0, None, A.AES)),
+                         ("mac.generate_cbc_mac", (rb(rng, 15), data, 1, None, A.DES)), ("mac.generate_retail_mac", (rb(rng, 16), rb(rng, 16), data, 7, None)),
+                         ("mac.generate_retail_mac", (rb(rng, 16), rb(rng, 9), data, 1, None)), ("des.encrypt_tdes_ecb", (rb(rng, 10), data)),
+                         ("aes.encrypt_aes_cbc", (rb(rng, 16), rb(rng, 15), data)), ("tools.xor", (data, rb(rng, 8)))):
+            c = Case(fn.split(".")[-1] + ":large-data-with-invalid-argument", {"len": n})
+            c.key = (fn, n, len(args[0]))
+            r = call_impl(fn, args)      # implementation only: the outcome class is all that is judged
+            if fn == "tools.xor":
+                if not r.ok or len(r.value) != n:
+                    c.fail("xor of a large buffer with a short mask is not as long as the data")
+            elif r.ok or r.err != "value":
+                c.fail(f"an invalid argument together with {n} bytes of data was not rejected with ValueError: {'returned' if r.ok else r.err}")
+            yield c
     # two text parameters out of range at once with lengths that compensate each other (one longer by d, the other shorter by d),
     # and two neighbouring parameters exchanged: a guard on the combined text sees nothing wrong
     for fn, (params, entropy, decoder) in FUNCS.items():
